@@ -8,6 +8,7 @@ from __future__ import annotations
 import datetime as _dt
 
 from pyoda_time import CalendarSystem, IsoDayOfWeek, LocalDate
+from pyoda_time.calendars import Era
 
 from vf.core import impl
 from vf.core.evidence import Acc
@@ -28,6 +29,8 @@ def _years_shard(arg):
     acc = Acc()
     cal = CalendarSystem.for_id(cal_id)
     ref = calref.for_id(cal_id)
+    gj = cal_id in ("ISO", "Gregorian", "Julian")
+    single_era = None if gj else list(cal.eras())[0]
     for y in range(y0, y1):
         acc.count(states=1, nontrivial=1)
         try:
@@ -59,6 +62,20 @@ def _years_shard(arg):
                 if cal.get_days_in_month(y, m) != ml:
                     acc.violation("C02/%s/month-length/y%d" % (cal_id, y), "get_days_in_month(%d, %d) = %d, reference %d" % (y, m, cal.get_days_in_month(y, m), ml),
                                   {"calendar": cal_id, "year": y, "month": m})
+                # the era / year-of-era construction route must denote the same day (reference era arithmetic: G/J have
+                # BCE = 1 - year for years <= 0, every other calendar has a single era with year_of_era = year)
+                try:
+                    if gj:
+                        era_, yoe_ = (Era.common, y) if y >= 1 else (Era.before_common, 1 - y)
+                    else:
+                        era_, yoe_ = single_era, y
+                    de = LocalDate(yoe_, m, ml, cal, era_)
+                    acc.count(evaluations=1)
+                    if impl.days_of(de) != run + ml - 1:
+                        acc.violation("C02/%s/era-route/y%d" % (cal_id, y), "LocalDate(era=%s, year_of_era=%d, %d, %d) is day %d, reference %d" % (era_, yoe_, m, ml, impl.days_of(de), run + ml - 1),
+                                      {"calendar": cal_id, "year": y, "month": m})
+                except Exception as e:  # noqa: BLE001
+                    acc.lib_exception("C02/%s/era-route/y%d" % (cal_id, y), e, {"calendar": cal_id, "year": y, "month": m, "day": ml})
                 dl = LocalDate(y, m, ml, cal)
                 if impl.days_of(dl) != run + ml - 1:
                     acc.violation("C02/%s/month-end/y%d" % (cal_id, y), "%d-%d-%d is day %d, reference %d" % (y, m, ml, impl.days_of(dl), run + ml - 1),
